@@ -1058,3 +1058,24 @@ func run(r *ev.Run, tier, replay string) {
 	r.Set("exhaustive_note", "the model is explored exhaustively by TLC on the bounded configurations; conformance of gluon is sampled by simulated behaviours")
 	r.Set("families", len(families))
 }
+
+// RunConnectorFamily simulates and replays only the connector family (client commands interleaved with
+// MailboxCreated / MailboxUpdated / MailboxDeleted updates, in-process server). C06 uses it for the mailbox-level
+// update kinds and keeps the findings about connector steps.
+func RunConnectorFamily(r *ev.Run, num int, seed int64) {
+	f := famByName("conn")
+	behs, res, err := simulate(f, num, seed)
+	if err != nil {
+		r.Machinery("tlc simulate %s: %v", f.Name, err)
+		return
+	}
+	if res.Violated != "" || res.Error != "" || res.TimedOut || !res.Finished {
+		r.Machinery("TLC simulation of family %s did not finish cleanly: violated=%q error=%q timeout=%v\n%s", f.Name, res.Violated, res.Error, res.TimedOut, tail(res.Output))
+		return
+	}
+	if len(behs) > num {
+		behs = behs[:num]
+	}
+	r.Add("namespace_connector_behaviours", int64(len(behs)))
+	replayFamily(r, f, behs, 1)
+}
